@@ -72,9 +72,32 @@ def _status_source(t):
     return "upd"
 
 
+STATUS_VARIANTS = ("Set", "Deleted", "DeleteAfterTtl")
+
+
+def status_deleted(info):
+    """the path knows the status is Deleted"""
+    return info.get("status_set") == {"Deleted"}
+
+
+def status_visible(info):
+    """the path knows the status is not Deleted (Set or DeleteAfterTtl) — through a positive arm or `!matches!(.., Deleted)`"""
+    ss = info.get("status_set")
+    return ss is not None and "Deleted" not in ss and len(ss) < len(STATUS_VARIANTS) + 0 and len(ss) >= 1
+
+
 def cond_info(row, status_from=("get", "upd")):
     """classification of a mutator path: key present?, value equal?, previous status"""
-    info = {"present": None, "eq": None, "status": None, "entry": None, "stale": None}
+    info = {"present": None, "eq": None, "status": None, "entry": None, "stale": None, "status_set": None}
+    poss = None
+    for c in row.cond:
+        if c[0] == "variant" and T.last_field(c[1]) == (VV, "status") and _status_source(c[1]) in status_from:
+            if poss is None:
+                poss = set(STATUS_VARIANTS)
+            names = set(c[2]) if isinstance(c[2], (tuple, list)) else {c[2]}
+            poss = (poss & names) if c[3] else (poss - names)
+    if poss is not None and len(poss) < len(STATUS_VARIANTS):
+        info["status_set"] = poss
     for c in row.cond:
         if c[0] == "variant":
             t = c[1]
